@@ -123,7 +123,7 @@ type zz_verif_c31Run struct {
 func TestVerif_C31(t *testing.T) {
 	rec := kit.Open("C31")
 	defer rec.Done()
-	runs := rec.N(3000, 120000)
+	runs := rec.N(3000, 300000)
 	r := rec.Rand(31)
 	names := [zz_verif_c31MaxRepos]string{"github.com/a/one", "github.com/a/two", "three"}
 
